@@ -210,8 +210,8 @@ C04_WITNESSES = [w(LIT_SRC, oracle="literals", syntax="lua54", quote_style=q) fo
 WS_SRC = ('--[[ block\r\ncomment\nmixed\r\nendings ]]\nlocal   x = 1   -- trailing   \n\n\n\nif x then -- c\n\tprint(x)   \nend\n'
           'if x\n--[[ lead ]]\nthen\n  local t = {\n1,\n    2, -- two\n}\nend\nwhile x\n-- cm\ndo end\n-- eof comment\n\n\n')
 C10_WITNESSES = [w(WS_SRC, oracle="whitespace", **o) for o in (dict(), dict(line_endings="Windows"), dict(indent_type="Spaces", indent_width="3"), dict(indent_type="Spaces", indent_width="2", line_endings="Windows"))] + [
-    w('for i = 1, 2\n-- cm\ndo end\n', oracle="whitespace"),          # known finding D14 (see known_findings.txt)
-    w('for k, v in pairs(t)\n-- d\ndo end\n', oracle="whitespace"),   # known finding D14
+    w('for i = 1, 2\n-- cm\ndo end\n', oracle="whitespace"),          # D14 (repaired)
+    w('for k, v in pairs(t)\n-- d\ndo end\n', oracle="whitespace"),   # D14 (repaired)
 ]
 TYPE_WITNESSES = [
     w('type Callback = ((a: number) -> Result) | ((a: number, b: string) -> ()) | nil\nlocal x: (() -> ())? = nil\ntype U = (A & B) | C\nlocal f = function(cb: ((n: number) -> ()) | ((s: string) -> boolean) | nil) end\n', oracle="tree", syntax="luau", sweep=(20, 140)),
@@ -237,13 +237,11 @@ FIELD_COMMENT_WITNESSES = [w('local t = { (a --[[c]]), b }\nlocal u = { x = (a -
 CALL_COMMENT_WITNESSES = [w('a -- c\n (b)\na.b -- d\n (b)\nfoo(a -- e\n (b))\na -- f\n "s"\n', oracle="comments", sweep=(10, 120)),
                           w('local x = a -- c\n (b)\na -- c\n (b):c()\nlocal y = a.b.c -- d\n (e).f()\n', oracle="tree", sweep=(10, 120))]
 PARAM_COMMENT_WITNESSES = [w('local x = function( -- c\n a) end\nfunction f( -- d\n ) end\nfunction g( -- e\n a, -- f\n ...) return 1 end\n', oracle="comments", sweep=(10, 120))]
-# open findings D22, D23, D27, D28 (known_findings.txt): one witness per finding
-OPEN_COMMENT_FINDINGS = [
-    w('foo(- -- c\n a)\n', oracle="comments"), w('foo(not -- c\n a, b)\n', oracle="comments"), w('local x = # -- c\n a\n', oracle="comments"),     # D22
-    w('foo((a -- c\n))\n', oracle="comments"),                                                                                                        # D23
-    w('a:b -- c\n (d)\n', oracle="comments"),                                                                                                         # D27
-]
-OPEN_C03_FINDINGS = [w('local t = { a -- c\n, -- d\n b }\n', oracle="comments")]                                                                      # D28
+# open finding D28 (known_findings.txt): one witness per finding
+UNOP_COMMENT_WITNESSES = [w('foo(- -- c\n a)\nfoo(not -- d\n a, b)\nlocal x = # -- e\n a\nlocal y = - -- f\n -a\nif not -- g\n a then end\n', oracle="comments", sweep=(10, 120))]
+ARG_PAREN_COMMENT_WITNESSES = [w('foo((a -- c\n))\nfoo(a, (b -- d\n))\nfoo(a + (b -- e\n), d)\nfoo(-(a -- f\n))\na:b -- g\n (d)\nlocal x = a:b -- h\n (d):e()\n', oracle="comments", sweep=(10, 120))]
+OPEN_COMMENT_FINDINGS = []
+OPEN_C03_FINDINGS = [w('local t = { a -- c\n, -- d\n b }\n', oracle="comments"), w('foo(a -- c\n, -- d\n b)\n', oracle="comments"), w('return a -- c\n, -- d\n b\n', oracle="comments")]   # D28, one per formatter
 WITNESSES = {
     "C03.condition": COND_COMMENT_WITNESSES, "C02.condition": COND_COMMENT_WITNESSES,
     "C02.stmt": COLLAPSE_WITNESSES, "C01.semicolon": COLLAPSE_WITNESSES[:2] + SEMI_COMMENT_WITNESSES, "C08.block": SEMI_COMMENT_WITNESSES,
@@ -262,7 +260,7 @@ WITNESSES = {
     "C01.double_minus_guard": EXPR_WITNESSES[1:3],
 }
 
-C01_BOUNDED = [x for x in COLLAPSE_WITNESSES if x["oracle"] == "comments"] + BRACKET_WITNESSES + REHANG_WITNESSES[1:] + BINOP_COMMENT_WITNESSES + CALL_COMMENT_WITNESSES[:1] + PARAM_COMMENT_WITNESSES + OPEN_COMMENT_FINDINGS
+C01_BOUNDED = [x for x in COLLAPSE_WITNESSES if x["oracle"] == "comments"] + BRACKET_WITNESSES + REHANG_WITNESSES[1:] + BINOP_COMMENT_WITNESSES + CALL_COMMENT_WITNESSES[:1] + PARAM_COMMENT_WITNESSES + UNOP_COMMENT_WITNESSES + ARG_PAREN_COMMENT_WITNESSES + OPEN_COMMENT_FINDINGS
 C02_BOUNDED = TYPE_WITNESSES + [x for x in COLLAPSE_WITNESSES if x["oracle"] == "tree"] + CALL_COMMENT_WITNESSES[1:]
 C03_BOUNDED = (TABLE_COMMENT_WITNESSES + COND_COMMENT_WITNESSES + SEMI_COMMENT_WITNESSES + [x for x in COLLAPSE_WITNESSES if x["oracle"] == "comments"][:2]
                + PAREN_COMMENT_WITNESSES + REHANG_WITNESSES[:1] + SORT_COMMENT_WITNESSES + FIELD_COMMENT_WITNESSES + OPEN_C03_FINDINGS)
